@@ -98,6 +98,11 @@ chk('C20', 'exploration',
     'Every string of length <= 2 (quick) / 3 (thorough) over a 12-symbol alphabet of troublesome characters plus URL-encoded and quote/brace specials in every free-text field, every pair of fields, every 1-2 character insertion of non-identifier characters into backend names (also as director members) and director names, and structural variants (0/1/3 items, IPv4/IPv6 x negated x masks, directors with 0-2 members x types x retries absent/set) - about 16800 resource sets - are rendered by the real snippet package through a stub Fetcher and through terraform.ParseStdin. Oracle: no crash or refusal, every generated item parses, and the parsed tables / acls / backends / directors have exactly the key, value (after escape decoding), address, mask, negation and membership of the resources; a director member names the backend as declared.',
     'Trusts: the stub fetcher and the Terraform plan JSON builder in mc/checks/c20; response objects and header rules are only required to parse.')
 
+chk('C10', 'exploration',
+    'bounded-exhaustive enumeration of test files (ordered selections from a verdict/interaction alphabet) x mains x coverage on the real test runner, with constructed verdicts, solo-run differential and coverage on/off differential; real binary for exit status',
+    'seq: about 100 alphabet items with constructed verdicts (every assert.* holding / failing, state assertions after testing.call_subroutine, runtime-error shapes, assertion sequences, assertions under control flow, @skip, @suite, multi-@scope, scope by suffix, writers of every tester-visible piece of state, readers that log what they see, describe groups) - every item alone, every ordered pair, every ordered triple of the interaction alphabet, the whole alphabet forwards and backwards, x 4 mains x coverage off/on, run in-process with the options of `falco test`. Oracles: constructed verdict and error kind of every case, counters (skips, fails>0 iff a failed case, asserts=passes+fails), and for every ungrouped test equality of verdict/error/logs with its solo run without coverage. flow: 16 container shapes x arms from 35 leaf statements with at most 1 (quick) / 2 (thorough) arms deviating x every input vector, each run with and without coverage - observations must be equal. cli: the real binary in text and -json mode x coverage: exit status, printed counts, JSON verdicts and summary.',
+    'Trusts: the constructed verdicts in mc/checks/c10/items.go (VCL and assertion semantics as documented in docs/testing.md); normalisation of line numbers in error/log texts. 2 known-finding classes (if() condition evaluated twice under coverage).')
+
 NOT_YET = {i: 'check not built yet in this session (design in DESIGN.md §4); will be claimed once its command exists' for i in ids if i not in CHECKS}
 
 m = {
